@@ -187,7 +187,7 @@ func ecOps(step int, full bool) []tt.Op {
 			r = append(r, op("set", k, v, d))
 		}
 		r = append(r, op("update", k, v, 0), op("update", k, v, 2), op("delete", k))
-		if k < 2 { // the SAME value again with another lifetime: the new lifetime counts
+		if k < 1 && full { // the SAME value again with another lifetime: the new lifetime counts
 			r = append(r, op("update", k, 7, 10), op("update", k, 7, 2))
 		}
 	}
